@@ -135,7 +135,7 @@ CLAIMED = {
              'that segment and the next start, and None one past the end; (Lemma B) the same for previous_segment_from in mirror mode (the text before the offset read backwards against the reversed grammar, '
              'absolute and relative paths): it returns the segment starting at the nearest start below the offset, None at the first; no out-of-bounds index, termination; '
              '(wiring, MIR shape rules on every CFG path) segments() = Empty iff is_empty() else NonEmpty{self, first_segment_offset(), len+1}; next()/next_back() return None without touching a cursor, or — only under '
-             'offset < back_offset — apply the step to (path, own cursor), store the returned offset into that cursor only and return the returned segment; first_segment_offset / is_absolute / is_empty are the documented tests; '
+             'offset < back_offset — apply the step to (path, own cursor), store the returned offset into that cursor only and return the returned segment; is_absolute() and is_empty() are decided as predicates over all byte strings by Engine S (true exactly on texts starting with "/" resp. on "" and "/"), first_segment_offset is 1 iff is_absolute(); '
              'first(), last(), file_name(), segment_count() are the corresponding steps. The induction over interleavings (DESIGN.md §10.7) is a short pen-and-paper argument over these mechanically checked facts.',
         design_ref='DESIGN.md §10.7',
         note='NOT decided: parent / parent_or_empty (directory is covered under C16), normalized_segments().len() (the normalised sequence, as in C09), and the mechanisation of the induction step itself. '
@@ -174,7 +174,9 @@ CLAIMED = {
              'RiRefBufImpl::resolve in the monomorphic instance graph and no implementor overrides it or a mutator it uses; resolved(base) is into_resolved(self.to_owned(), base); '
              'has-scheme typestate of resolve() over every CFG path: a path either found a scheme in the reference (scanner result, C02) or first calls set_scheme(Some(base.scheme())), '
              'every later call on self is a frame-preserving mutator (C05/C09 frame keeps the scheme) and no set_scheme(None) is reachable, so the unchecked re-typing of the result as Uri/Iri '
-             'is justified (with C13: reference ∩ has-scheme = full, and C04: mutators preserve validity); the base is only read (shared reference to a plain text newtype); URI and IRI twins agree.',
+             'is justified (with C13: reference ∩ has-scheme = full, and C04: mutators preserve validity); ordering: on every CFG path all calls that change which of scheme/authority is present precede every write of the path (the disambiguating shield is decided in the final context); '
+             'RFC 3986 5.2.2 case analysis: every CFG path is walked with a path-sensitive evaluation of its guards, the treatment of the path (keep the base path / normalise the own path / merge) is read off its calls, and the language of reference paths '
+             'reaching each treatment is compared by automata equality with the RFC table (keep iff path = "", own iff it starts with "/", merge otherwise; own when the reference has a scheme or authority); the base is only read; URI and IRI twins agree.',
         design_ref='DESIGN.md §4 C06',
         note='NOT decided: that the text written on each path equals the RFC 3986 §5.2.2 result (merge + remove_dot_segments over run-time segment lists), nor idempotence; those quantify over run-time values.',
         technique='instance-graph reachability + CFG path enumeration (typestate) + sibling agreement (static analysis)',
@@ -184,7 +186,8 @@ CLAIMED = {
         category='other',
         text='Claimed in part, base() only, for all values: (1) Engine A lemma on the RFC automata of the four RI types: every prefix of a valid value that ends at its path start or right after a "/" of its path '
              'is a valid value of the same type with no query and no fragment; (2) PathImpl::directory, on every symbolic path of its MIR (loop havocked), returns the whole (empty) path, the EMPTY constant or a prefix '
-             'bytes[..=i] whose last byte is provably "/"; (3) RiRefImpl::base returns bytes[.. find_path(bytes,0).start + len(directory(path))] of its own text — decided semantically over affine terms, so equivalent '
+             'bytes[..=i] whose last byte is provably "/", and that "/" is the LAST one of the path (Engine S in mirror mode on the backward scan: the result is exactly the text up to the first "/" of the reversed text; '
+             'a search written with Iterator::rposition is the last match by definition); (3) RiRefImpl::base returns bytes[.. find_path(bytes,0).start + len(directory(path))] of its own text — decided semantically over affine terms, so equivalent '
              're-arrangements pass; (4) the six typed base() wrappers re-wrap exactly that slice (unsafe-site class LEMMA).',
         design_ref='DESIGN.md §4 C16',
         note='NOT decided: suffix() (a prefix relation over normalised segment lists — run-time values). Relies on C02 for find_path.',
